@@ -107,10 +107,10 @@ pub fn run(ctx: &mut Ctx) {
         extras: true,
         all_widths: false,
     };
-    ctx.meta("rule", "cases: (tree, subset of masters encoded with unknown size, marker width); trees = every forest over V up to the node bound + the deep spines; all 2^m subsets; encoded by RefEncoder (1- and 8-byte all-ones markers; plus > 64 KiB documents with long headers at every alignment around the buffer boundary) and, independently, by the real TagWriter with write_advanced(unknown). Excluded by construction: a global element as the first element after an unknown-size master's last descendant. Oracle: strict parse == flatten(tree) with RefEncoder offsets (Ends before the closing element), and == the all-known encoding's tags; with unknown ids tolerated, the same for every tree with one element of an id outside the specification put at every position (it is an ordinary child and ends nothing). Non-trivial: encodings where an unknown-size master is closed by something other than its own sibling.");
+    ctx.meta("rule", "cases: (tree, subset of masters encoded with unknown size, marker width); trees = every forest over V up to the node bound + the deep spines; all 2^m subsets; encoded by RefEncoder (1- and 8-byte all-ones markers, and for trees of <= 5 elements every marker width 1..8; plus > 64 KiB documents with long headers at every alignment around the buffer boundary) and, independently, by the real TagWriter with write_advanced(unknown). Excluded by construction: a global element as the first element after an unknown-size master's last descendant. Oracle: strict parse == flatten(tree) with RefEncoder offsets (Ends before the closing element), and == the all-known encoding's tags; with unknown ids tolerated, the same for every tree with one element of an id outside the specification put at every position (it is an ordinary child and ends nothing). Non-trivial: encodings where an unknown-size master is closed by something other than its own sibling.");
     ctx.meta("bounds", &format!("forests <= {} elements over V (5 master levels), all subsets, devs <= {}", p.max_nodes, p.devs));
     ctx.meta("assumptions", "payload values irrelevant to closing decisions (default tiny payloads)");
-    for c in ["closed_by_sibling", "closed_by_element_one_level_up", "closed_by_element_two_or_more_levels_up", "closed_by_enclosing_known_size_end", "closed_by_end_of_input", "writer_encodings", "buffer_boundary_docs", "unknown_id_element_inside_unknown_size_encodings"] {
+    for c in ["closed_by_sibling", "closed_by_element_one_level_up", "closed_by_element_two_or_more_levels_up", "closed_by_enclosing_known_size_end", "closed_by_end_of_input", "writer_encodings", "buffer_boundary_docs", "unknown_id_element_inside_unknown_size_encodings", "marker_widths_2_to_8"] {
         ctx.expect_nonzero(c);
     }
     let cfg = Cfg::strict();
@@ -205,6 +205,31 @@ fn sweep<T: SpecT>(ctx: &mut Ctx, rs: &RefSpec, plist: Vec<DocParams>, label: &s
         ctx.leave();
         if raw_variants && !kinds.is_empty() {
             tolerated_unknown_ids::<T>(ctx, rs, doc, label);
+        }
+        // the reserved all-ones value in every width 2..8 of the size field (the main sweep uses 1 byte, the writer 8)
+        if !kinds.is_empty() && gen::count_nodes(doc) <= 5 {
+            for w in 2..=8u8 {
+                let mut dw = doc.clone();
+                crate::refmodel::visit_mut(&mut dw, &mut |n| {
+                    if let SizeEnc::Unknown(_) = n.size {
+                        n.size = SizeEnc::Unknown(w);
+                    }
+                });
+                let d = || format!("{} doc=[{}] unknown-size markers {} bytes wide", label, docs::doc_short(rs, &dw), w);
+                if !ctx.enter(&d) {
+                    continue;
+                }
+                ctx.count("marker_widths_2_to_8", 1);
+                let (bytes, lay) = ref_encode(&dw);
+                let want = flatten(&dw, &lay);
+                let obs = parse_slice::<T>(&bytes, &cfg);
+                ctx.transitions += obs.items.len() as u64 + 1;
+                if (obs.items != want || !obs.clean()) && !d28 {
+                    ctx.violation("marker-width/differs-from-tree", &d, &format!("bytes={} expected [{}] observed {}", hex(&bytes), want.iter().map(|(i, o)| format!("{}@{}", i.short(), o)).collect::<Vec<_>>().join(" "), obs.short()));
+                }
+                ctx.validated += 1;
+                ctx.leave();
+            }
         }
         !ctx.should_stop()
     });
